@@ -28,3 +28,15 @@ def drive(run):
     functions keep matching): `run` executes the inner part of a history - calls of g, generator operations"""
     r = run()
     return r
+
+
+def mk(k):
+    """two function objects made by one def share one code object (closures of a factory, wrappers of a decorator)"""
+    def h(z):
+        a = z + k
+        return a
+    return h
+
+
+h1 = mk(1000)
+h2 = mk(2000)
